@@ -81,6 +81,10 @@ func applyPredictor(data []byte, predictor int, params Params) ([]byte, error) {
 	return nil, fmt.Errorf("unsupported predictor: %d", predictor)
 }
 
+// maxPredictorRowBytes bounds Columns*Colors so that the row size computed
+// from file-supplied numbers can neither be zero or negative nor overflow.
+const maxPredictorRowBytes = 1 << 30
+
 // applyTIFFPredictor2 applies TIFF Predictor 2, which predicts each sample
 // from the sample to its left. This is rarely used in PDFs.
 func applyTIFFPredictor2(data []byte, params Params) ([]byte, error) {
@@ -90,6 +94,10 @@ func applyTIFFPredictor2(data []byte, params Params) ([]byte, error) {
 
 	if bpc != 8 {
 		return nil, fmt.Errorf("TIFF Predictor 2 only supports 8 bits per component, got %d", bpc)
+	}
+
+	if columns <= 0 || colors <= 0 || columns > maxPredictorRowBytes/colors {
+		return nil, fmt.Errorf("invalid predictor geometry: Columns %d, Colors %d", columns, colors)
 	}
 
 	rowSize := columns * colors
@@ -125,6 +133,10 @@ func applyPNGPredictor(data []byte, predictor int, params Params) ([]byte, error
 
 	if bpc != 8 {
 		return nil, fmt.Errorf("PNG predictor only supports 8 bits per component, got %d", bpc)
+	}
+
+	if columns <= 0 || colors <= 0 || columns > maxPredictorRowBytes/colors {
+		return nil, fmt.Errorf("invalid predictor geometry: Columns %d, Colors %d", columns, colors)
 	}
 
 	// PNG predictors work on rows with a predictor byte at the start of each row
